@@ -44,6 +44,11 @@ SHAPES = {
     "always": {"targets": {"T1": T(always=True), "T2": T(deps=["T1"]), "T3": T(srcs=["s1"])}, "sources": ["s1"]},
     "alwaysoff": {"targets": {"T1": T(always=True), "T2": T(deps=["T1"]), "T3": T(srcs=["s1"])}, "sources": ["s1"]},
     "grow": {"targets": {"T1": T(srcs=["s1"]), "T2": T(deps=["T1"])}, "sources": ["s1"]},
+    # nested packages (a and a/b) and a generated file consumed in another package
+    "nestedpkg": {"targets": {"T1": T(srcs=["s1"], gens=["g1"], pkg="a"), "T2": T(deps=["T1"], srcs=["g1"], pkg="a/b"), "T3": T(deps=["T2"])},
+                  "sources": ["s1", "g1"]},
+    # dependency edges are rewired (see RESHAPE): T3 moves from T2 to T1
+    "rewire": {"targets": {"T1": T(srcs=["s1"]), "T2": T(srcs=["s2"]), "T3": T(deps=["T2"])}, "sources": ["s1", "s2"]},
     # one dependency written with two spellings of its label by two dependents
     "altlabel": {"targets": {"A": T(srcs=["s1"], pkg="lib"), "B": T(deps=["A"]), "C": T(deps=["A"], alt=["A"]), "D": T(deps=["B", "C"])}, "sources": ["s1"]},
 }
@@ -58,7 +63,8 @@ RESHAPE = {
     # a project that grows (watch mode: edit, Reload) and one whose always-target stops being one
     "grow": {"targets": {"T1": T(srcs=["s1"]), "T2": T(deps=["T1"]), "T3": T(deps=["T2"], srcs=["s2"])}, "sources": ["s1", "s2"]},
     "alwaysoff": {"targets": {"T1": T(), "T2": T(deps=["T1"]), "T3": T(srcs=["s1"])}, "sources": ["s1"]},
-    "chain3": {"targets": {"T1": T(srcs=["s1"]), "T2": T(deps=["T1"])}, "sources": ["s1"]}}
+    "chain3": {"targets": {"T1": T(srcs=["s1"]), "T2": T(deps=["T1"])}, "sources": ["s1"]},
+    "rewire": {"targets": {"T1": T(srcs=["s1"]), "T2": T(srcs=["s2"]), "T3": T(deps=["T1"])}, "sources": ["s1", "s2"]}}
 
 
 def mon_shape(s):
@@ -327,6 +333,9 @@ def harness_cases(tier, sd):
     # collection must know the new targets
     add("watch", "grow", [B("T2"), {"op": "reshape"}, {"op": "reload"}, B("T3", reuse=True), B("T3", gc=True, index=True), B("T3")], twin="gc")
     add("watch", "grow", [B("T2"), {"op": "reshape"}, {"op": "reload"}, B("T3", reuse=True), {"op": "edit_src", "s": "s2"}, {"op": "reload"}, B("T3", reuse=True), B("T3")])
+    # a dependency edge moves; afterwards only the new dependency's inputs matter
+    add("part", "rewire", [B("T3"), B("T1"), {"op": "reshape"}, B("T3"), {"op": "edit_src", "s": "s1"}, B("T3"), B("T3")])
+    add("part", "rewire", [B("T3"), B("T1"), {"op": "reshape"}, B("T3"), {"op": "edit_src", "s": "s2"}, B("T3"), {"op": "edit_src", "s": "s1"}, B("T1"), B("T3")])
     # an always-target that stops being one after a dry run
     add("dry", "alwaysoff", [B("T2"), B("T2", "dry"), {"op": "reshape"}, B("T2"), B("T2")], twin="dry")
     add("dry", "alwaysoff", [B("T2"), {"op": "reshape"}, B("T2"), B("T2")])
